@@ -451,9 +451,10 @@ def show_ws(ws):
 
 # ----------------------------------------------------------------------------- correspondence
 def correspondence(ctx):
-    ctx.partial = [{"theorem": "QM.C12.gen_wse_accepted_handled_partial",
-                    "missing": "the accepted mode string 'unbiased_inverse_covariance' has no branch in _set_weights_by_mode (open finding D9f, "
-                               "negation witness gen_wse_accepted_handled_fails)"}]
+    ctx.partial = []
+    ctx.notes.append("an EMPTY custom weight list (weights=[]) is outside the quantifier (one weight per schedule): the generic classes then "
+                     "evaluate unweighted (`if self.weights:`), the fast ones raise (IndexError / broadcast ValueError); both behaviours are "
+                     "modelled and compared, not reported")
     ctx.notes.append("hessian of the fast losses raises NotImplementedError by design; fast = generic is proved for value and gradient")
     drv = Driver("C12")
     pend = []
@@ -488,6 +489,16 @@ def correspondence(ctx):
             ask("wse-hess", key, [float(v) for v in lg.hessian(x).flatten()], "wse", "hess", *base)
         ask("fast-value", key, [float(lf.value(x))], "wse", "fvalue", *base)
         ask("fast-grad", key, [float(v) for v in lf.gradient(x)], "wse", "fgrad", *base)
+        # error branches: one matrix too few (generic: IndexError), one too many (generic ignores it, fast: shape error)
+        if Ws is not None and S > 1:
+            for nameW, Wbad in (("short", Ws[:-1]), ("long", Ws + [Ws[0]])):
+                baseb = [mm, nv, S, qlist(x)] + st + toks_weights(Wbad)
+                for opn, which, mk in (("wse-value", "value", generic_wse), ("fast-value", "fvalue", fast_wse)):
+                    try:
+                        implb = [float(mk(qt, data, Wbad).value(x))]
+                    except Exception as e:  # noqa
+                        implb = "err " + err_kind(e)
+                    ask(opn, key + (nameW,), implb, "wse", which, *baseb)
         # relative entropy kernels per schedule (numpy's log values are handed to the model)
         xp = positive_point(g, qt, true) if ci % 3 != 1 else x
         A, b = qt.calc_matA(), qt.calc_vecB()
@@ -539,6 +550,48 @@ def correspondence(ctx):
             terms.append(float(ent.relative_entropy(data[j][1], (A @ x + b)[j * mm:(j + 1) * mm], is_valid_required=False)))
         ask("wre-sum", (kind, flag, m, t), [float(l.value(x))], "wresum", "none" if wsel is None else qlist(wsel), qlist(terms))
         ctx.case(("wresum", kind, flag, m, t), nontrivial=bool(wsel))
+        # weighted gradient of the generic loss (component α) = the same weighted sum of the per-schedule gradient kernels
+        l.set_func_gradient_prob_dists_from_standard_qt(qt)
+        al = int(g.integers(0, qt.num_variables))
+        pv = A @ x + b
+        gterms = [float(ent.gradient_relative_entropy_2nd(data[j][1], pv[j * mm:(j + 1) * mm], A[j * mm:(j + 1) * mm],
+                                                          is_valid_required=False)[al]) for j in range(S)]
+        ask("wre-grad-sum", (kind, flag, m, t, al), [float(l.gradient(x)[al])], "wresum", "none" if wsel is None else qlist(wsel),
+            qlist(gterms), tol=1e-8)
+        # too few weights: IndexError in the generic loop
+        if S > 1:
+            wshort = [1.0] * (S - 1)
+            ls_ = WRE(qt.num_variables, prob_dists_q=[d[1] for d in data], weights=wshort)
+            ls_.set_func_prob_dists_from_standard_qt(qt)
+            try:
+                impl_s = [float(ls_.value(x))]
+            except IndexError:
+                impl_s = "err index"
+            ask("wre-sum", (kind, flag, m, t, "short"), impl_s, "wresum", qlist(wshort), qlist(terms))
+        # the FAST relative entropy on one configured object: value = Σ extW·vector, gradient component = dot(extW, column)
+        cw = [None, [float(v) for v in g.integers(0, 4, size=S)], []][t % 3]
+        ow = [None, [float(v) for v in g.integers(1, 5, size=S)], []][(t // 3) % 3]
+        lf = FWRE(qt.num_variables, prob_dists_q=[d[1] for d in data], weights=cw)
+        vec = np.concatenate([ent.relative_entropy_vector(data[j][1], pv[j * mm:(j + 1) * mm], is_valid_required=False) for j in range(S)])
+        col = ent.gradient_relative_entropy_2nd_vector(np.concatenate([d[1] for d in data]), pv, A, is_valid_required=False)[:, al]
+        try:
+            lf.set_from_standard_qtomography_option_data(qt, FWREO("identity" if ow is None else "custom", weights=ow), data, True, False)
+            impl_v, impl_g = [float(lf.value(x))], [float(lf.gradient(x)[al])]
+        except ValueError:
+            impl_v = impl_g = "err value"
+        lens = ",".join(str(len(d[1])) for d in data)
+        base = ["true", "none" if cw is None else qlist(cw), "none" if ow is None else qlist(ow), lens]
+        ask("fast-wre-sum", (kind, flag, m, t, cw, ow), impl_v, "fwre", "sum", *base, qlist(vec))
+        ask("fast-wre-dot", (kind, flag, m, t, cw, ow, al), impl_g, "fwre", "dot", *base, qlist(col), tol=1e-8)
+    # ---- simple quadratic loss: value, gradient, Hessian
+    for t in range(4 if ctx.quick else 12):
+        n = int(g.integers(1, 6))
+        ref, xq = qobj.dyadic(g, (n,), 8, 1.0), qobj.dyadic(g, (n,), 8, 1.0)
+        lq = SimpleQuadraticLossFunction(ref)
+        implq = [float(lq.value(xq))] + [float(v) for v in lq.gradient(xq)] + [float(v) for v in lq.hessian(xq).flatten()]
+        pend.append(("simple-quadratic", (ref.tolist(), xq.tolist()), implq, drv.ask("simple", n, qlist(ref), qlist(xq)), "simple", 1e-12))
+        ctx.corr_ops.add("simple-quadratic")
+        ctx.case(("simple-corr", n, t))
     # ---- option wiring: sequences of configurations on one object, weights installed afterwards
     gw = ctx.npgen(2)
     nseq = 24 if ctx.quick else 120
@@ -558,6 +611,10 @@ def correspondence(ctx):
             mode = MODES_W[int(gw.integers(0, len(MODES_W)))]
             data = make_data(gw, ps, int(gw.integers(5, 200)), zeros=bool(r % 2))
             Wc = sym_weights(gw, S, m) if mode == "custom" else None
+            if mode == "custom" and t % 6 == 1:
+                Wc = []                                            # empty custom list: fast class raises IndexError
+            elif mode == "custom" and t % 6 == 4:
+                Wc = [w.copy() for w in Wc]; Wc[0][0, m - 1] += 0.5  # not symmetric: the setter's validation rejects it
             seq.append(mode)
             ginvs = []
             if is_cov(mode):
@@ -566,7 +623,7 @@ def correspondence(ctx):
                     cov = mu.calc_covariance_mat(ft, n if mode == "inverse_sample_covariance" else n - 1)
                     ex = cov[:-1, :-1] + np.eye(m - 1) / (n ** (3 / 2))
                     ginvs.append(np.linalg.inv(ex))
-                    if r == 0 and t < 8:
+                    if r == 0:
                         ask("extracted", (m, f.tolist(), n, mode), [float(v) for v in ex.flatten()], "extracted", mode, m, qlist(f), EPS8, n, q(n ** (3 / 2)))
             toks += [mode] + toks_weights(Wc) + [len(ginvs)] + [qlist(G.flatten()) for G in ginvs]
             for which, l, ocls in (("g", lg, WSEO), ("f", lf, FWSEO)):
@@ -611,6 +668,10 @@ def correspondence(ctx):
             ctx.disagree(op, inp, impl, line); continue
         t = line.split()
         if kind == "vec":
+            if isinstance(impl, str):          # the implementation raised: error kinds must agree
+                if line != impl:
+                    ctx.disagree(op, inp, impl, line[:200])
+                continue
             if t[0] != "ok":
                 ctx.disagree(op, inp, impl, line[:200]); continue
             vals = [float(v) for v in unqlist(t[1])]
@@ -640,6 +701,10 @@ def correspondence(ctx):
                 else:
                     ok &= len(a) == len(b_) and all(np.allclose(x_, y_, rtol=1e-9, atol=1e-12) for x_, y_ in zip(a, b_))
             if not ok:
+                ctx.disagree(op, inp, impl, line[:200])
+        elif kind == "simple":
+            vals = [float(unq(t[1]))] + [float(v) for v in unqlist(t[2])] + [float(v) for v in unqlist(t[3])]
+            if t[0] != "ok" or len(vals) != len(impl) or any(abs(a - b_) > 1e-12 * max(1.0, abs(a)) for a, b_ in zip(impl, vals)):
                 ctx.disagree(op, inp, impl, line[:200])
         elif kind == "wrewiring":
             def pl(s):
